@@ -26,6 +26,11 @@ THEOREMS = [
     "PM.FParser.add_refines", "PM.FParser.feed_refines", "PM.pdom_of_spec", "PM.C09Flat.flat_parse_stream_follows_spec",
     "PM.C09Flat.PInv.get",
 ]
+# theorems about the decisions of parse.py *translated from the current source* (extractor E12, lean/Eliot/Generated/ParseRule.lean)
+RULE_THEOREMS = ["PM.C09Rule.completeNow_is_translated", "PM.C09Rule.visit_is_translated", "PM.C09Rule.shapes"]
+SKELETON_TARGETS = {"PM.C09Rule.translated_parse_decisions (E12: the `if` test of Task._insert_action, its loop, the order of effects, "
+                    "_ensure_node_parents and the dispatch of Task.add, translated from eliot/parse.py)":
+                    ("Eliot.Properties.C09Rule", "Eliot/Audit/C09Rule.lean", RULE_THEOREMS)}
 RULE = ("histories = permutations / sub-multisets / task interleavings of the messages of generated well-formed forests "
         "(1-4 tasks, depth <= 4 quick / 6 thorough, nested actions standing for remote sub-tasks too), plus a malformed stream "
         "(duplicates, type clashes, wrong status, message under a message) used only to validate the model's error branches; "
